@@ -232,6 +232,20 @@ theorem elf_str_entry_sound (base lim idx : BitVec 64) (hv : base.toNat + 2 ^ 31
   simp only [elf_str_table_empty, elf_str_entry_outside, decide_eq_false_iff_not, BitVec.le_def, BitVec.toNat_add] at h1 h2 ⊢
   omega
 
+/-- pe.c `pe_get_section_full_name` (COFF long section names): the loop reads `string[len]` under the guard
+    `fits_in_pe(pe, string, <generated size>)`; the guarded size covers the index that is read, so with `fits_in_pe_sound` the byte
+    `string + len` lies inside the file, for all values (`len` cannot reach 2^64-1: it counts bytes of the file). -/
+theorem pe_fullname_read_in_guard (data sz str len : BitVec 64) (hv : data.toNat + sz.toNat < 2 ^ 64) (hl : len.toNat < 2 ^ 64 - 1)
+    (h : fits_in_pe data sz str (pe_fullname_guard_size len) = true) :
+    data.toNat ≤ str.toNat ∧ str.toNat + len.toNat < data.toNat + sz.toNat := by
+  have hr := fits_in_pe_sound data sz str (pe_fullname_guard_size len) hv h
+  have hs : (pe_fullname_guard_size len).toNat = len.toNat + 1 := by
+    simp only [pe_fullname_guard_size, BitVec.toNat_add]
+    have h1 : (1#64).toNat = 1 := by decide
+    omega
+  unfold InRange at hr
+  omega
+
 /-- Mach-O load-command walk: every command handled by the loop has its 8-byte header and its whole
     `cmdsize` extent inside the file, makes progress ≥ 8, for all `cmdsize` streams and all fuel.
     Hypotheses: `parsed ≤ size` initially (the caller checked `size ≥ sizeof(header)`), and
